@@ -10,7 +10,7 @@ from ..ref import Graph
 
 LEVEL = "exploration"
 TECHNIQUE = 'runtime monitoring: statistical monitor (pooled Pearson chi-square against the enumerated spanning trees at a 1e-9 tail; per-edge inclusion frequencies against effective resistances on larger grids) plus an online trace checker replaying every random decision of gen_wilson in a loop-erased-random-walk reference model'
-RULE = ("statistical layer: N = 400*k (quick) / 4000*k (thorough) draws of gen_wilson on grids whose k spanning trees are enumerated "
+RULE = ("statistical layer: N = 1000*k (quick) / 4000*k (thorough) draws of gen_wilson on grids whose k spanning trees are enumerated "
         "by the harness (2x2:4, 2x3/3x2:15, 2x4/4x2:56, 3x3:192; thorough also 3x4:2415, cross-checked with Kirchhoff's "
         "determinant), numpy's global RNG seeded per block from VERIF_SEED and every 4th block entered with an already-consumed "
         "stream; pooled over all shards: every output must be one of the k trees, every tree must appear, and Pearson's chi-square "
@@ -27,10 +27,10 @@ NSHARDS = {"quick": 16, "thorough": 16}
 GRIDS_Q = [(2, 2), (2, 3), (3, 2), (2, 4), (4, 2), (3, 3)]
 GRIDS_T = GRIDS_Q + [(3, 4)]
 # marginal layer: grids too large to enumerate; (shape, draws quick, draws thorough)
-GRIDS_M = [((4, 4), 16000, 200000), ((5, 5), 16000, 200000), ((3, 6), 12000, 120000), ((6, 3), 12000, 120000), ((1, 6), 2000, 10000),
+GRIDS_M = [((4, 4), 40000, 200000), ((5, 5), 40000, 200000), ((3, 6), 30000, 120000), ((6, 3), 30000, 120000), ((1, 6), 2000, 10000),
            ((7, 2), 8000, 80000), ((8, 8), 4000, 60000), ((12, 12), 0, 20000)]
 Z_MAX = 7.0
-THRESHOLDS = {"quick": {"c19:draws": 100000, "c19:marginal-draws": 60000, "c19:trace:draws": 500,
+THRESHOLDS = {"quick": {"c19:draws": 300000, "c19:marginal-draws": 150000, "c19:trace:draws": 500,
                         "c19:consumed-stream-blocks": 10}}
 THRESHOLDS["thorough"] = {**THRESHOLDS["quick"], "c19:draws": 1000000}
 ANCHORS = ["maze_dataset.generation.generators:LatticeMazeGenerators.gen_wilson",
@@ -43,7 +43,7 @@ TAIL = 1e-9
 
 def n_draws(tier, k, shape):
     if tier == "quick":
-        return 400 * k
+        return 1000 * k
     return 200 * k if shape == (3, 4) else 4000 * k
 
 
